@@ -798,6 +798,49 @@ class Read(Suite):
         return case["class"] + ("/raised" if raised else "")
 
 
+# --- an option value in every form its declared type admits --------------------------------------------------------------------------------
+# "for all read options (… extra_cols …)": `extra_cols` is declared Iterable[str]. Which columns are requested is a matter of the NAMES the
+# iterable yields, not of the container: a list, a tuple, a dict (its keys), a keys view, the pieces of a split header line, or a one-shot
+# iterator over them (generator, map, iter, reversed, a csv row being consumed) request the same columns. One-shot forms go through the
+# entry points that read once per call; the re-iterable ones also through the collections, which read every member with the same options.
+XCOL_FORMS_MULTI = ["list", "tuple", "dict", "dict-keys", "split"]
+XCOL_FORMS_ONCE = ["generator", "map", "iter", "reversed", "csv-row", "zip-unpack"]
+XCOL_NAMES = ["e{j}", "col{j}", "f_{j}", "label{j}", "w{j}"]
+
+
+def xcol_names(case):
+    return [case["name_pat"].format(j=j) for j in range(case["n_extra"])]
+
+
+def xcol_object(form, names):
+    """the requested names as an object of the given form (built at the call, as a caller does)"""
+    import csv
+
+    if form == "list":
+        return list(names)
+    if form == "tuple":
+        return tuple(names)
+    if form == "dict":
+        return {n: None for n in names}
+    if form == "dict-keys":
+        return {n: None for n in names}.keys()
+    if form == "split":
+        return ",".join(names).split(",") if names else []
+    if form == "generator":
+        return (n for n in names)
+    if form == "map":
+        return map(str.strip, [" " + n + " " for n in names])
+    if form == "iter":
+        return iter(list(names))
+    if form == "reversed":
+        return reversed(list(names)[::-1])
+    if form == "csv-row":
+        return iter(next(csv.reader([",".join(names)]), [])) if names else iter([])
+    if form == "zip-unpack":
+        return (n for n, _ in zip(names, range(len(names))))
+    raise ValueError(form)
+
+
 ALPHABET = " \t0123456789.+-eE#,x\n\r"
 
 
@@ -1053,8 +1096,267 @@ class GenLoop(Suite):
         r = res["real"]
         return case["class"] + "/" + ("error-" + ("decode" if "decode" in r["msg"] else "row") if "error" in r else f"ok-w{len(r['warn'])}")
 
+# --- files of every size --------------------------------------------------------------------------------------------------------------------
+# "for all texts assembled from the SWC line grammar … for all read options (… encoding)": a text has any number of rows. Whatever reads a
+# file in pieces (a buffer, a block, a sample) has sizes at which its pieces end; files are generated a little beyond every power of two from
+# 4 KiB to 256 KiB, and the one thing that tells encodings apart, text that is not ASCII, stands in a comment at the head, in the middle, at
+# the tail (provenance appended by a tool), in a block of comments at the tail, or throughout — so that for every block size there are
+# files whose first block is pure ASCII and files whose first block is not. Read with the default encoding, with the encoding named, and
+# with 'detect'; or with one undecodable byte near the end (default / named utf-8). A case is a small description; the text is rebuilt from it.
+LARGE_POW = [12, 13, 14, 15, 16, 17, 18]
+LARGE_PLACES = ["head", "middle", "tail", "tail-block", "throughout"]
+_LARGE_CACHE = {}
 
-SUITES = [Read(), Recogniser(), GenLoop()]
+
+def large_doc(case):
+    """(text, rows, comments) of a large-file case, a function of the case alone"""
+    import random
+
+    key = (case["gen"], case["target"], case["place"], case["notes"])
+    if key in _LARGE_CACHE:
+        return _LARGE_CACHE[key]
+    rng = random.Random(case["gen"])
+    pool = {"latin": NOTES_LATIN, "wide": NOTES_WIDE, "mixed": NOTES_LATIN + NOTES_WIDE}[case["notes"]]
+    eol = rng.choice(["\n", "\n", "\r\n"])
+    body, rows, size, i = [], [], 0, rng.choice([0, 1, 1, 5])
+    first = i
+    while size < case["target"]:
+        p = -1 if i == first else rng.randint(max(first, i - 40), i - 1)
+        fl = [spell_float(rng) for _ in range(4)]
+        ty = rng.randint(0, 7)
+        line = ws(rng, False) + ws(rng).join([str(i), str(ty)] + [f[0] for f in fl] + [str(p)]) + ws(rng, False) + eol
+        entry = [("row", line)]
+        if rng.random() < 0.02:
+            entry.append(("comment", rng.choice(NOTES_ASCII)) if rng.random() < 0.5 else ("blank", eol))
+        for kind, v in entry:
+            body.append((kind, v)); size += len(v) + (2 if kind == "comment" else 0)
+        rows.append({"id": i, "type": ty, "x": fl[0][1], "y": fl[1][1], "z": fl[2][1], "r": fl[3][1], "pid": p, "extra": []})
+        i += 1
+    place = case["place"]
+    at = {"head": [0], "middle": [len(body) // 2], "tail": [len(body)], "tail-block": [len(body)] * rng.randint(2, 5),
+          "throughout": sorted(rng.randrange(len(body) + 1) for _ in range(rng.randint(3, 8)))}[place]
+    for a in reversed(at):
+        body.insert(a, ("comment", rng.choice(pool)))
+    comments = [v for kind, v in body if kind == "comment"]
+    text = "".join("#" + v + eol if kind == "comment" else v for kind, v in body)
+    if case.get("no_final_eol"):
+        text = text[: -len(eol)]
+    _LARGE_CACHE.clear()
+    _LARGE_CACHE[key] = (text, rows, comments)
+    return _LARGE_CACHE[key]
+
+
+class LargeFiles(Suite):
+    """files a little beyond every power of two from 4 KiB to 256 KiB, non-ASCII text at every place, every way of giving the encoding"""
+    name = "c02.large"
+    repeat = 6
+
+    def cases(self, rng, tier, widen):
+        big = tier == "thorough" or widen
+        out, j = [], 0
+        entries = ENTRIES[:]
+        for rep in range(3 if big else 1):
+            rng.shuffle(entries)
+            for k in (LARGE_POW if big else LARGE_POW[:-1]):      # (the quick tier stops at 128 KiB)
+                for place in LARGE_PLACES:
+                    opts = ["detect", ["default", "named"][(j + rep) % 2]] + (["detect", "named"] if big else [])
+                    for opt in opts:
+                        notes = rng.choice(["latin", "wide", "mixed"])
+                        store = "utf-8"
+                        if opt == "named":
+                            store = rng.choice(["utf-8", "utf-16"] + (["latin-1", "cp1252"] if notes == "latin" else []))
+                        elif opt == "detect" and rng.random() < 0.25:
+                            store = rng.choice(["utf-16", "utf-8-sig"])
+                        entry = entries[j % len(entries)]; j += 1
+                        out.append({"class": f"large/2^{k}/{place}/{opt}", "mode": "large", "pow": k, "target": 2 ** k + rng.randint(1, 2 ** (k - 2)),
+                                    "gen": rng.getrandbits(48), "place": place, "notes": notes, "opt": opt, "store": store, "entry": entry, "bad": None,
+                                    "no_final_eol": rng.random() < 0.2, "source": rng.choice(["bytes", "path"]) if entry in ("read_swc", "tree") else "path"})
+                # bytes that are not text, on a line of their own somewhere in the last tenth of the file
+                entry = entries[j % len(entries)]; j += 1
+                kind = rng.choice(BAD_BYTES)
+                opt = rng.choice(["default", "named"])
+                out.append({"class": f"large/2^{k}/bad-bytes-near-end/{opt}", "mode": "large", "pow": k, "target": 2 ** k + rng.randint(1, 2 ** (k - 2)),
+                            "gen": rng.getrandbits(48), "place": rng.choice(LARGE_PLACES), "notes": "mixed", "opt": opt, "store": "utf-8", "entry": entry,
+                            "bad": "bytes", "bad_kind": kind, "bad_hex": bad_bytes(rng, kind).hex(), "bad_frac": rng.uniform(0.9, 1.0), "no_final_eol": False,
+                            "source": rng.choice(["bytes", "path"]) if entry in ("read_swc", "tree") else "path"})
+        return out
+
+    def data_of(self, case):
+        text, rows, comments = large_doc(case)
+        data = text.encode(case["store"])
+        off = None
+        if case["bad"]:
+            off = data.rfind(b"\n", 0, max(1, int(len(data) * case["bad_frac"]))) + 1
+            data = data[:off] + bytes.fromhex(case["bad_hex"]) + b"\n" + data[off:]
+        return text, rows, comments, data, off
+
+    def run(self, case):
+        text, rows, comments, data, _ = self.data_of(case)
+        kw = {"reset_index": True}
+        if case["opt"] != "default":
+            kw["encoding"] = "detect" if case["opt"] == "detect" else case["store"]
+        tmp = tempfile.mkdtemp(prefix="c02_")
+        try:
+            res = Read().read_via(case["entry"], tmp, data, kw, case["source"] == "bytes", other_encoding="ascii" if case["opt"] == "default" else case["store"])
+        finally:
+            shutil.rmtree(tmp, ignore_errors=True)
+        res["bytes"] = len(data)
+        return res
+
+    def oracle(self, case, res):
+        try:
+            return [(k_, m[:900]) for k_, m in self._oracle(case, res)]
+        except Exception as e:  # noqa: BLE001
+            return [("malformed-output", f"the result of the read cannot be compared with the file ({type(e).__name__}: {e}); result {str(res)[:200]}")]
+
+    def _oracle(self, case, res):
+        text, rows, comments, data, off = self.data_of(case)
+        opt = {"default": "no encoding option", "named": f"encoding={case['store']!r}", "detect": f"encoding='detect' (file stored as {case['store']})"}[case["opt"]]
+        what = f"file of {len(data)} bytes ({len(rows)} rows), non-ASCII comment text at {case['place']}, {opt}, via {case['entry']}"
+        if not isinstance(res, dict) or "exc" in res:
+            r = res if isinstance(res, dict) else {}
+            return [("entry-harness-error", f"{what}: the read did not finish: {r.get('exc')}: {r.get('msg')}")]
+        if case["bad"]:
+            if "raised" in res:
+                return []
+            return [("malformed-accepted/decode", f"{what}: bytes that are not utf-8 ({case['bad_kind']}: {case['bad_hex']} on a line of their own at offset {off}): "
+                                                  f"reading returned a table with {len((res.get('df') or {}).get('id') or [])} rows instead of raising")]
+        if "raised" in res:
+            if case["opt"] == "detect":
+                return []        # the codec a detector chose could not decode the bytes: a loud failure, nothing was returned
+            return [("valid-text-rejected", f"{what}: well-formed text rejected with {res['raised']}: {res.get('msg')}")]
+        got = res.get("comments")
+        if not isinstance(got, list) or got != comments:
+            d = next((i for i, (a, b) in enumerate(zip(got or [], comments)) if a != b), min(len(got or []), len(comments)))
+            return [("comments", f"{what}: {len(got or [])} comments read, the file has {len(comments)}; comment #{d} read "
+                                 f"{(got[d] if got and d < len(got) else None)!r}, the file says {(comments[d] if d < len(comments) else None)!r}")]
+        sub = {"mode": "entry", "entry": case["entry"], "rows": rows, "comments": comments, "n_extra": 0, "reset_index": True, "bad": None, "text": text[:200]}
+        return [(key, f"{what}: {msg}") for key, msg in Read().oracle(sub, res)]
+
+    def nontrivial(self, case, res):
+        return True
+
+    def klass(self, case, res):
+        return case["class"] + ("/raised" if isinstance(res, dict) and ("exc" in res or "raised" in res) else "")
+
+
+class OptionForms(Suite):
+    """extra_cols in every form of Iterable[str], through the entry points"""
+    name = "c02.optforms"
+
+    def cases(self, rng, tier, widen):
+        big = tier == "thorough" or widen
+        out, k = [], 0
+        once = [(f, e) for f in XCOL_FORMS_ONCE for e in ["read_swc", "tree"]]
+        multi = [(f, e) for f in XCOL_FORMS_MULTI for e in ["read_swc", "tree", "population", "lazy-list"]]
+        for rep in range(4 if big else 1):
+            for form, entry in once + multi:
+                pids = gen.parents_sorted(rng, rng.choice([1, 2, 4, 7, 12]), gen.pick_shape(rng, k)); k += 1
+                how = rng.choice(["reset", "raw", "sorted"]) if entry in ("read_swc", "tree") else "reset"
+                if how == "sorted":
+                    ids, pp, _ = gen.table_form(rng, pids)
+                else:
+                    base = rng.choice([0, 1, 1, 5])
+                    ids, pp = [i + base for i in range(len(pids))], [-1 if p < 0 else p + base for p in pids]
+                nx = rng.choice([1, 1, 2, 3]) if rng.random() < 0.85 else 0
+                tail = rng.random() < 0.3          # fields beyond the requested ones: only a warning
+                text, rows, comments = make_text(rng, ids, pp, n_extra=nx, with_tail=tail)
+                out.append({"class": f"extra-cols-as/{form}/{entry}", "mode": "xcols", "form": form, "entry": entry, "n_extra": nx, "how": how,
+                            "name_pat": rng.choice(XCOL_NAMES), "rows": rows, "comments": comments, "text": text,
+                            "source": rng.choice(["text", "bytes", "path"]) if entry in ("read_swc", "tree") else "path"})
+        return out
+
+    def run(self, case):
+        from swcgeom.core import Population, Tree
+        from swcgeom.core.population import LazyLoadingTrees
+        from swcgeom.core.swc_utils import read_swc
+
+        names = xcol_names(case)
+        kw = {"extra_cols": xcol_object(case["form"], names)}
+        if case["how"] == "sorted":
+            kw["sort_nodes"] = True
+        else:
+            kw["reset_index"] = case["how"] == "reset"
+        text, entry = case["text"], case["entry"]
+        tmp = tempfile.mkdtemp(prefix="c02_")
+        try:
+            path = os.path.join(tmp, "b.swc")
+            with open(path, "wb") as f:
+                f.write(text.encode("utf-8"))
+            with open(os.path.join(tmp, "a.swc"), "w") as f:     # another member of the collection, with the same columns
+                f.write("1 1 0 0 0 1 -1" + " 0.5" * len(names) + "\n2 3 1 0 0 1 1" + " 1.5" * len(names) + "\n")
+            src = path if case["source"] == "path" else (io.BytesIO(text.encode("utf-8")) if case["source"] == "bytes"
+                                                         else (io.StringIO(text, newline=None) if "\r" in text else io.StringIO(text)))
+            with warnings.catch_warnings(record=True) as w:
+                warnings.simplefilter("always")
+                try:
+                    if entry == "read_swc":
+                        df, comments = read_swc(src, **kw)
+                        return {"df": {str(c): df[c].tolist() for c in df.columns}, "comments": list(comments), "via": entry,
+                                "warnings": [str(x.message)[:60] for x in w]}
+                    if entry == "tree":
+                        t = Tree.from_swc(src, **kw)
+                    elif entry == "population":
+                        pop = Population.from_swc(tmp, **kw)
+                        order = [os.path.basename(x) for x in pop.trees.swcs]
+                        _ = pop[order.index("a.swc")]            # the other member first: every member is read with the options given
+                        t = pop[order.index("b.swc")]
+                    else:
+                        pop = Population(LazyLoadingTrees([os.path.join(tmp, "a.swc"), path], **kw))
+                        _ = pop[0]
+                        t = pop[1]
+                except Exception as e:  # noqa: BLE001 - the oracle decides
+                    return {"raised": type(e).__name__, "msg": str(e)[:200], "via": entry}
+            keys = [str(k_) for k_ in t.keys()]
+            cols = ["id", "type", "x", "y", "z", "r", "pid"] + [n for n in names if n in keys]
+            return {"df": {c: np.asarray(t.get_ndata(c)).tolist() for c in cols if c in keys}, "comments": list(t.comments), "via": entry,
+                    "warnings": [str(x.message)[:60] for x in w]}
+        finally:
+            shutil.rmtree(tmp, ignore_errors=True)
+
+    def oracle(self, case, res):
+        try:
+            return self._oracle(case, res)
+        except Exception as e:  # noqa: BLE001
+            return [("malformed-output", f"the result of the read cannot be compared with the file ({type(e).__name__}: {e}); result {str(res)[:200]}")]
+
+    def _oracle(self, case, res):
+        names = xcol_names(case)
+        what = f"extra_cols given as {case['form']} of {names} via {case['entry']}"
+        if not isinstance(res, dict) or "exc" in res or "raised" in res:
+            r = res if isinstance(res, dict) else {}
+            return [("valid-text-rejected", f"{what}: well-formed text rejected with {r.get('exc') or r.get('raised')}: {r.get('msg')}; text={case['text'][:200]!r}")]
+        df = res.get("df")
+        if not isinstance(df, dict):
+            return [("malformed-output", f"{what}: no table in the result {str(res)[:200]}")]
+        missing = [n for n in names if n not in df]
+        if missing:
+            return [("extra-col-dropped", f"{what}: the requested columns {missing} are not in the result (columns {sorted(df)}); "
+                                          f"warnings {res.get('warnings')}; text={case['text'][:120]!r}")]
+        exact = res.get("via") == "read_swc"
+        f32 = (lambda v: v) if exact else (lambda v: float(np.float32(v)))
+        with np.errstate(over="ignore"):
+            rows = [dict(r, x=f32(r["x"]), y=f32(r["y"]), z=f32(r["z"]), r=f32(r["r"]), extra=[f32(v) for v in r["extra"]]) for r in case["rows"]]
+        sub = {"mode": "sorted-read" if case["how"] == "sorted" else "plain", "rows": rows, "comments": case["comments"], "n_extra": case["n_extra"],
+               "reset_index": case["how"] == "reset", "text": case["text"]}
+        sdf = {c: v for c, v in df.items() if c not in names}
+        with np.errstate(over="ignore"):
+            for j, n in enumerate(names):       # (a tree may keep a column in single or in double precision: compared in single)
+                sdf[f"e{j}"] = [f32(v) for v in df[n]]
+        sres = dict(res, df=sdf, via="read_swc")          # (expected values already are what the entry stores)
+        out = [(key, f"{what}: {msg}") for key, msg in Read().oracle(sub, sres)]
+        if not out and res.get("comments") != case["comments"]:
+            out.append(("comments", f"{what}: comments read {res.get('comments')!r}, file has {case['comments']!r}"))
+        return out
+
+    def nontrivial(self, case, res):
+        return case["n_extra"] >= 1 and len(case["rows"]) >= 2
+
+    def klass(self, case, res):
+        return case["class"] + ("/raised" if isinstance(res, dict) and ("exc" in res or "raised" in res) else "")
+
+
+SUITES = [Read(), Recogniser(), GenLoop(), OptionForms(), LargeFiles()]
 TECHNIQUE = "Lean 4 theorems about a line recogniser + fold model of parse_swc (ok ⇔ no invalid line; one row per data line in order; never partial) pinned to the regexes extracted from the source + differential correspondence against CPython re / read_swc + grammar-directed and malformed-stream oracle"
 LEVEL_TEXT = ("Kernel-checked for every list of lines: the model of parse_swc returns ok exactly when no line is invalid, and then exactly one row per data "
               "line in file order with the tokens' values and the comments in order; an invalid line at any position makes the whole read an error. "
